@@ -438,6 +438,7 @@ def fingerprint(ctx, skip=2):
             parts.append(_uniq('frame'))
         f = f.f_back
     parts.append(tuple(sorted(ctx.counters.items())))
+    parts.append(ctx.extra.get('ending'))
     parts.append(tuple(sorted((k, v) for k, v in ctx.extra.get('held', {}).items() if v)))
     try:
         return hash(tuple(parts)), tuple(parts)
